@@ -367,6 +367,18 @@ func checkC14(p *Program, r *Report) {
 			}
 		}
 		r.Add("C14.hash", FnName(gh), "filter hash is the double SHA-256 of the N-prefixed serialisation", gh.Pos(), okH, "DoubleHashH(filter.NBytes())")
+		// and nothing else: every return without an error yields that digest (no special-cased filter)
+		ei := errResultIndex(gh)
+		for _, ret := range returnsOf(gh) {
+			if ei < 0 || !isNilConst(ret.Results[ei]) {
+				continue
+			}
+			okR := false
+			if c, ok := ret.Results[0].(*ssa.Call); ok && c.Call.StaticCallee() != nil && strings.HasSuffix(c.Call.StaticCallee().String(), "chainhash.DoubleHashH") {
+				okR = true
+			}
+			r.Add("C14.hash", FnName(gh), "every successful return of the filter hash is that digest", ret.Pos(), okR, "returns "+exprString(ret.Results[0]))
+		}
 	} else {
 		r.Unresolved("C14.hash", "builder.GetFilterHash")
 	}
@@ -443,7 +455,7 @@ func checkC14(p *Program, r *Report) {
 	} else {
 		r.Unresolved("C14.hash", "builder.MakeHeaderForFilter")
 	}
-	r.Floor("C14.hash", 2)
+	r.Floor("C14.hash", 3)
 
 	// ---- C14.latch
 	var errField *types.Var
@@ -536,6 +548,8 @@ func checkC14(p *Program, r *Report) {
 		}
 	}
 	r.Floor("C14.latch", 12)
+	memoCoherence(p, r, "C14.memo", "gcs/builder", "GCSBuilder", nil)
+	gcsWriterRule(p, r, "C14.writer")
 }
 
 func derefTypeOrSelf(t types.Type) types.Type {
